@@ -40,8 +40,20 @@ impl StateMachine<'_> {
         }
 
         match self.state.clone() {
-            HunkHeader(Combined(merge_parents, InMergeConflict::No), _, _, _)
-            | HunkMinus(Combined(merge_parents, InMergeConflict::No), _)
+            HunkHeader(
+                Combined(merge_parents, InMergeConflict::No),
+                parsed_hunk_header,
+                line,
+                raw_line,
+            ) => {
+                handled_line = self.enter_merge_conflict(&merge_parents);
+                if handled_line {
+                    // The conflict region is the first thing in this hunk: the hunk header has
+                    // not been emitted yet (that normally happens on the first hunk line).
+                    self.emit_hunk_header_line(&parsed_hunk_header, &line, &raw_line)?;
+                }
+            }
+            HunkMinus(Combined(merge_parents, InMergeConflict::No), _)
             | HunkZero(Combined(merge_parents, InMergeConflict::No), _)
             | HunkPlus(Combined(merge_parents, InMergeConflict::No), _) => {
                 handled_line = self.enter_merge_conflict(&merge_parents)
